@@ -151,6 +151,8 @@ func (r *Router) handleHTTPRequest(ctx *Context) {
 			if ret := recover(); ret != nil {
 				ctx.Set(CTXRecoverResult, ret)
 				r.OnPanic(ctx)
+				// the normal return path is skipped on panic, so commit the response header at here.
+				ctx.writer.ensureWriteHeader()
 			}
 		}()
 	}
